@@ -5,52 +5,76 @@ From Bfe Require Import lib.Val lib.Bytes model.Cors proofs.CorsProofs run.RunC5
 Import ListNotations.
 Open Scope Z_scope.
 
-(* Non-preflight callback (HandleReadResponse).  For every rule, request and backend response header h:
-   if the callback changed any Access-Control-* field of the response, then the request's Origin is allowed by the
-   rule (non-empty and: the rule lists %origin, or is the wildcard rule, or lists exactly this origin), the
-   Access-Control-Allow-Origin field is exactly one line holding "*" for the wildcard rule and the echoed request
-   origin otherwise, and Access-Control-Allow-Credentials is untouched unless the rule enables credentials. *)
-Theorem C52_only_allowed : forall (r : rule) (q : req) (h : hdrs),
-  aca_same h (cors_handler r q h) = false ->
-  origin_allowed (r_origins r) (origin_of q) = true
-  /\ h_acao (cors_handler r q h) = [expected_acao (r_origins r) (origin_of q)]
-  /\ (h_acac (cors_handler r q h) = h_acac h \/ (r_cred r = true /\ h_acac (cors_handler r q h) = [s_true])).
+(* A product's configuration is a list of rules [(m, r)]: m says whether the rule's condition matches the request
+   (condition evaluation is external); find_rule picks the first matching rule, as the callbacks do.
+
+   Non-preflight callback (HandleReadResponse).  For every rule list, request and backend response header h:
+   if the callback changed any Access-Control-* field of the response, then the product has rules, some rule matches,
+   and with r the FIRST matching rule: the request's Origin is allowed by r (non-empty and: r lists %origin, or is
+   the wildcard rule, or lists exactly this origin), Access-Control-Allow-Origin is exactly one line holding "*" for
+   the wildcard rule and the echoed request origin otherwise, and Access-Control-Allow-Credentials is untouched unless
+   r enables credentials. *)
+Theorem C52_only_allowed : forall (rs : rules) (q : req) (h : hdrs),
+  aca_same h (cors_handler rs q h) = false ->
+  exists r, q_has_rules q = true /\ find_rule rs = Some r
+  /\ origin_allowed (r_origins r) (origin_of q) = true
+  /\ h_acao (cors_handler rs q h) = [expected_acao (r_origins r) (origin_of q)]
+  /\ (h_acac (cors_handler rs q h) = h_acac h \/ (r_cred r = true /\ h_acac (cors_handler rs q h) = [s_true])).
 Proof. exact only_allowed_handler. Qed.
 Print Assumptions C52_only_allowed.
 
 (* Preflight callback (HandleFoundProduct): the 204 response it creates carries Access-Control-* fields only for
-   an allowed origin, with the same value rule. *)
-Theorem C52_only_allowed_preflight : forall (r : rule) (q : req) (h' : hdrs),
-  preflight_handler r q = Some h' -> aca_same empty_hdrs h' = false ->
-  origin_allowed (r_origins r) (origin_of q) = true
+   an origin allowed by the first matching rule, with the same value rule. *)
+Theorem C52_only_allowed_preflight : forall (rs : rules) (q : req) (h' : hdrs),
+  preflight_handler rs q = Some h' -> aca_same empty_hdrs h' = false ->
+  exists r, find_rule rs = Some r
+  /\ origin_allowed (r_origins r) (origin_of q) = true
   /\ h_acao h' = [expected_acao (r_origins r) (origin_of q)]
   /\ (h_acac h' = [] \/ (r_cred r = true /\ h_acac h' = [s_true])).
 Proof. exact only_allowed_preflight. Qed.
 Print Assumptions C52_only_allowed_preflight.
 
+(* Denied: no rules for the product, no matching rule, or an Origin the first matching rule does not allow (this
+   includes a missing/empty Origin): the response header is left exactly as it was - no Access-Control-* field and
+   no Vary change. *)
+Theorem C52_denied_unchanged : forall (rs : rules) (q : req) (h : hdrs),
+  (q_has_rules q = false \/ find_rule rs = None
+   \/ (exists r, find_rule rs = Some r /\ origin_allowed (r_origins r) (origin_of q) = false)) ->
+  cors_handler rs q h = h.
+Proof. exact denied_unchanged. Qed.
+Print Assumptions C52_denied_unchanged.
+
+(* First match wins: non-matching rules before, and any rules after, the first matching rule have no influence. *)
+Theorem C52_first_match_wins : forall (pre : rules) (r : rule) (post : rules) (q : req) (h : hdrs),
+  forallb (fun mr => negb (fst mr)) pre = true ->
+  cors_handler (pre ++ (true, r) :: post) q h = cors_handler [(true, r)] q h
+  /\ preflight_handler (pre ++ (true, r) :: post) q = preflight_handler [(true, r)] q.
+Proof. exact first_match_wins. Qed.
+Print Assumptions C52_first_match_wins.
+
 (* Vary.  Whenever the non-preflight callback granted anything, the Vary field afterwards consists of all the
    lines it had before (any number of lines, any values) followed by zero or more added lines, and one of its
    comma-separated tokens is "*" or (case-insensitively) "Origin". *)
-Theorem C52_vary_origin : forall (r : rule) (q : req) (h : hdrs),
-  aca_same h (cors_handler r q h) = false ->
-  (exists extra, h_vary (cors_handler r q h) = h_vary h ++ extra)
-  /\ vary_lists_origin (h_vary (cors_handler r q h)) = true.
+Theorem C52_vary_origin : forall (rs : rules) (q : req) (h : hdrs),
+  aca_same h (cors_handler rs q h) = false ->
+  (exists extra, h_vary (cors_handler rs q h) = h_vary h ++ extra)
+  /\ vary_lists_origin (h_vary (cors_handler rs q h)) = true.
 Proof. exact vary_origin_handler. Qed.
 Print Assumptions C52_vary_origin.
 
-(* The same from the request side: an allowed origin on a non-preflight request of a product with rules is granted
-   the configured value and the response varies on Origin, whatever Vary lines the backend sent. *)
-Theorem C52_granted_varies : forall (r : rule) (q : req) (h : hdrs),
+(* The same from the request side: an origin allowed by the first matching rule on a non-preflight request is
+   granted the configured value and the response varies on Origin, whatever Vary lines the backend sent. *)
+Theorem C52_granted_varies : forall (rs : rules) (r : rule) (q : req) (h : hdrs),
   nonempty (origin_of q) = true -> is_preflight q = false -> q_has_rules q = true ->
-  origin_allowed (r_origins r) (origin_of q) = true ->
-  let h' := cors_handler r q h in
+  find_rule rs = Some r -> origin_allowed (r_origins r) (origin_of q) = true ->
+  let h' := cors_handler rs q h in
   h_acao h' = [expected_acao (r_origins r) (origin_of q)]
   /\ (exists extra, h_vary h' = h_vary h ++ extra) /\ vary_lists_origin (h_vary h') = true.
 Proof. exact vary_origin_granted. Qed.
 Print Assumptions C52_granted_varies.
 
-Theorem C52_vary_origin_preflight : forall (r : rule) (q : req) (h' : hdrs),
-  preflight_handler r q = Some h' -> aca_same empty_hdrs h' = false -> vary_lists_origin (h_vary h') = true.
+Theorem C52_vary_origin_preflight : forall (rs : rules) (q : req) (h' : hdrs),
+  preflight_handler rs q = Some h' -> aca_same empty_hdrs h' = false -> vary_lists_origin (h_vary h') = true.
 Proof. exact vary_origin_preflight. Qed.
 Print Assumptions C52_vary_origin_preflight.
 
@@ -60,18 +84,19 @@ Theorem C52_prop_of_model : forall i, wf_C52 i = true -> kf_C52 i = 0 -> prop_C5
 Proof. intros i H _. exact (prop_C52_of_model i H). Qed.
 Print Assumptions C52_prop_of_model.
 
-(* Non-vacuity: the case the unfixed code got wrong (two pre-existing Vary lines without Origin), a denied origin,
+(* Non-vacuity: the case the unfixed code got wrong (two pre-existing Vary lines without Origin;
+   the rule list has a non-matching wildcard rule first and a matching wildcard rule last), a denied origin,
    and a preflight. *)
 Example C52_ex_grant :
   rule_ok ex_rule = true /\
-  cors_handler ex_rule ex_req ex_rsp =
+  cors_handler [(false, ex_rule_star); (true, ex_rule); (true, ex_rule_star)] ex_req ex_rsp =
     mkHdrs [bs "Accept-Encoding"; bs "Cookie , User-Agent"; bs "Origin"] [bs "http://a.example"] [bs "true"] [] [] [] []
-  /\ aca_same ex_rsp (cors_handler ex_rule ex_req ex_rsp) = false.
+  /\ aca_same ex_rsp (cors_handler [(false, ex_rule_star); (true, ex_rule); (true, ex_rule_star)] ex_req ex_rsp) = false.
 Proof. exact ex_grant. Qed.
 Example C52_ex_deny : origin_allowed (r_origins ex_rule) (origin_of ex_req_other) = false
-  /\ cors_handler ex_rule ex_req_other ex_rsp = ex_rsp.
+  /\ cors_handler [(false, ex_rule_star); (true, ex_rule); (true, ex_rule_star)] ex_req_other ex_rsp = ex_rsp.
 Proof. exact ex_deny. Qed.
 Example C52_ex_preflight :
-  preflight_handler (mkRule [bs "%origin"] false [] [bs "PUT"; bs "GET"] [] (Some 600)) ex_pre =
+  preflight_handler [(true, mkRule [bs "%origin"] false [] [bs "PUT"; bs "GET"] [] (Some 600))] ex_pre =
   Some (mkHdrs [bs "Origin"] [bs "http://a.example"] [] [bs "PUT,GET"] [] [bs "600"] []).
 Proof. exact ex_preflight. Qed.
